@@ -34,6 +34,9 @@ struct ContactPlan {
     silent_at: Option<Micros>,
     /// Sends the node a query every so often (0 = never).
     query_every: Micros,
+    /// From the moment it goes silent the node's `send_to` towards it fails with an error
+    /// (address became unroutable / firewalled) instead of the datagram vanishing.
+    unsendable: bool,
 }
 
 const EPS: Micros = 2 * SEC;
@@ -83,6 +86,7 @@ pub fn scenario(ctx: &Ctx, idx: u64, check: &'static str, stream: &'static str) 
                 } else {
                     0
                 },
+                unsendable: silent_at.is_some() && rng.gen_bool(0.3),
             });
         }
         // At least one contact must answer at the start, otherwise nothing ever happens. In a quarter
@@ -116,7 +120,18 @@ pub fn scenario(ctx: &Ctx, idx: u64, check: &'static str, stream: &'static str) 
         let owned: HashSet<SocketAddr> = plans.iter().map(|p| p.addr).collect();
         net.add_actor(move |a| owned.contains(a), world);
         let max_lat = *[10 * MS, 100 * MS, 240 * MS].choose(&mut rng).unwrap();
-        net.set_link(Link::uniform(MS, max_lat));
+        {
+            let link = Link::uniform(MS, max_lat);
+            let unsendable: Vec<(SocketAddr, Micros)> = plans.iter().filter(|p| p.unsendable).map(|p| (p.addr, p.silent_at.unwrap_or(0))).collect();
+            report.add("contacts_unsendable_once_silent", unsendable.len() as u64);
+            net.set_fault(Box::new(move |rng, meta| {
+                if meta.from_socket && unsendable.iter().any(|(a, from)| *a == meta.dst && meta.now >= *from) {
+                    crate::simnet::Fate::failed()
+                } else {
+                    link.decide(rng, meta.from_socket)
+                }
+            }));
+        }
 
         let mut cfg = NodeCfg::new(addr);
         cfg.id = Some(id);
